@@ -71,6 +71,12 @@ def main():
         # code is the correspondence, so it is re-established at thorough size (time-boxed) before trusting it
         run_tier = 'thorough'
         budget_s = getattr(mod, 'ESCALATE_BUDGET', 420)
+    chk = None
+    if tier == 'thorough' and br.proof_ok:
+        chk = common.run_coqchk(mod.COQ_TARGETS)
+        if not chk['ok']:
+            br.proof_ok = False
+            br.proof_log += '\ncoqchk: ' + chk['log']
     ctx = Ctx(pid, run_tier, seed, budget_s=budget_s)
     ctx.escalated = bool(br.source_changed)
     ctx.runner = getattr(mod, 'RUNNER', common.DEFAULT_RUNNER)
@@ -169,6 +175,7 @@ def main():
                 'correspondence/oracle harness: agreement established on the generated cases only'],
             'theorems': br.obligations,
             'assumptions': br.assumptions,
+            'coqchk': ({'ok': chk['ok'], 'axioms': chk['axioms'], 'unsafe': chk.get('unsafe', [])} if chk else 'not run (thorough tier only)'),
             'evaluations': ctx.evaluations,
             'distinct_nontrivial': len(ctx.nontrivial),
             'rule': getattr(mod, 'RULE', ''),
